@@ -46,7 +46,7 @@ from .common import validate_records  # noqa: E402
 warnings.filterwarnings("ignore")
 
 # what the specification says an iteration deposits when all ants of an instance tie (ACO.tla, QUIRK AllEqual):
-# 0 = nothing (the matrix only evaporates), 1 = every ant deposits Q
+# 0 = nothing (the matrix only evaporates; the repaired _reward_map), 1 = every ant deposits Q
 TIE_DEP = 0
 
 INVARIANTS = ["TypeOK", "BestIsMaxOfHistory", "StoredTourHasStoredCost", "BestFromOwnAnt", "PheromoneRecurrence",
@@ -465,12 +465,13 @@ class Heat(torch.nn.Module):
         return torch.log(torch.sigmoid(3.0 * self.net(f).squeeze(-1)) + 1e-10), None
 
 
-def two_opt(dist, tour):
-    """first-improvement 2-opt, plain Python (what rl4co/envs/routing/tsp/local_search.py does with numba)"""
+def two_opt(dist, tour, max_iterations=100):
+    """first-improvement 2-opt, plain Python (what rl4co/envs/routing/tsp/local_search.py does with numba).  The sweep count is
+    bounded as in the library: on the ASYMMETRIC heuristic distances of the perturbation step the 2-opt delta is not the true
+    change of length and the moves may cycle."""
     n = len(tour)
     tour = list(tour)
-    improved = True
-    while improved:
+    for _ in range(max_iterations):
         improved = False
         for i in range(1, n - 1):
             for j in range(i + 1, n):
@@ -480,6 +481,8 @@ def two_opt(dist, tour):
                 if dist[a][c] + dist[b][d] - dist[a][b] - dist[c][d] < -1e-7:
                     tour[i:j + 1] = reversed(tour[i:j + 1])
                     improved = True
+        if not improved:
+            break
     return tour
 
 
@@ -524,7 +527,7 @@ def _recording_world():
 
         def local_search(self, td, actions, **kw):
             d = td["distances"].tolist()
-            return torch.tensor([two_opt(d[r], actions[r].tolist()) for r in range(actions.shape[0])], dtype=actions.dtype)
+            return torch.tensor([two_opt(d[r], actions[r].tolist(), **kw) for r in range(actions.shape[0])], dtype=actions.dtype)
 
     return RecordingAntSystem, TwoOptTSPEnv
 
@@ -576,7 +579,7 @@ B_RUNS = {
         dict(env="tsp", n=5, batch=4, ants=3, iters=4, kw={}),
         dict(env="tsp", n=7, batch=3, ants=4, iters=3, kw={"decay": 0.5, "alpha": 2.0, "beta": 0.5, "start_node": 0}),
         dict(env="tsp", n=6, batch=3, ants=3, iters=3, kw={"use_local_search": True}, ls=True),
-        dict(env="tsp", n=6, batch=2, ants=3, iters=2, kw={"use_local_search": True, "use_nls": True, "n_perturbations": 2}, ls=True),
+        dict(env="tsp", n=6, batch=2, ants=3, iters=2, kw={"use_local_search": True, "use_nls": True, "n_perturbations": 2, "perturbation_params": {"max_iterations": 3}}, ls=True),
         dict(env="cvrp", n=6, batch=3, ants=3, iters=4, kw={}),
         dict(env="tsp", n=5, batch=1, ants=4, iters=3, kw={"decay": 0.75, "Q": 0.5}),
     ],
@@ -585,7 +588,7 @@ B_RUNS["thorough"] = B_RUNS["quick"] + [
     dict(env="tsp", n=10, batch=5, ants=6, iters=6, kw={}),
     dict(env="cvrp", n=8, batch=4, ants=5, iters=5, kw={"decay": 0.5}),
     dict(env="cvrp", n=5, batch=1, ants=3, iters=3, kw={}),
-    dict(env="tsp", n=8, batch=4, ants=5, iters=4, kw={"use_local_search": True, "use_nls": True, "n_perturbations": 3}, ls=True),
+    dict(env="tsp", n=8, batch=4, ants=5, iters=4, kw={"use_local_search": True, "use_nls": True, "n_perturbations": 3, "perturbation_params": {"max_iterations": 3}}, ls=True),
 ]
 B_SEEDS = {"quick": 3, "thorough": 8}
 
@@ -684,7 +687,7 @@ def u6(x):
     return int(round(float(x) * 1e6))
 
 
-def heat_reference(env, td0, heat, actions, replicas, forced_first, temperature=1.0, first_is_mean=False):
+def heat_reference(env, td0, heat, actions, replicas, forced_first, temperature=1.0):
     """independent float64 loop: the step distribution is the row of the heat map indexed by the node the row stands on,
     restricted to the feasible nodes and normalised.  Rows are replicated instance-fastest (row r = replica * B + b)."""
     from rl4co.utils.ops import batchify
